@@ -145,6 +145,7 @@ static void vf_case_text(char *buf, size_t len, const vf_case *c) {
 }
 
 static vf_case *vf_cur = NULL;
+static unsigned long long vf_total_evals = 0;
 static int vf_cur_failed = 0;
 
 /* A case the harness considers non-trivial (its own rule); counted once per distinct case. */
@@ -183,7 +184,7 @@ static void vf_sample_now(const vf_case *c) {
 /* Execute one case: bookkeeping + run_case(). */
 static void vf_run(vf_case *c) {
 	vf_opinfo *o = vf_op(c->op);
-	o->evals++;
+	o->evals++; vf_total_evals++;
 	if (vf_track) { vf_case_text(vf_trackbuf, sizeof vf_trackbuf, c); alarm(120); }
 	/* write out a few actual cases per op: the first, and two later ones */
 	if (o->samples < 3 && (o->evals == 1 || o->evals == 1000 || o->evals == 100000)) { o->samples++; vf_sample_now(c); }
@@ -208,15 +209,27 @@ static void vf_bound_done(const char *name) {
 }
 
 /* ------------------------------------------------------------------ crash handling */
+static unsigned long long vf_wd_last = ~0ULL;
+static int vf_wd_ticks = 0;
+#define VF_WD_PERIOD 15
+#define VF_WD_TICKS 4
 static void vf_sig(int s) {
-	char b[9000];
+	static char b[9000];
+	if (s == SIGALRM && !vf_track) {
+		/* periodic watchdog: the same case still running after VF_WD_TICKS periods is a hang */
+		if (vf_wd_last != vf_total_evals) { vf_wd_last = vf_total_evals; vf_wd_ticks = 0; alarm(VF_WD_PERIOD); return; }
+		if (++vf_wd_ticks < VF_WD_TICKS) { alarm(VF_WD_PERIOD); return; }
+		if (vf_cur) vf_case_text(vf_trackbuf, sizeof vf_trackbuf, vf_cur);
+	}
+	if (s != SIGALRM && vf_cur && !vf_trackbuf[0]) vf_case_text(vf_trackbuf, sizeof vf_trackbuf, vf_cur);
 	int n = snprintf(b, sizeof b, "\n@%s sig=%d case=%s\n", s == SIGALRM ? "HANG" : "CRASH", s, vf_trackbuf);
 	if (write(1, b, (size_t)n) < 0) {}
 	_exit(s == SIGALRM ? 4 : 3);
 }
 /* sanitizer callback: make the report attributable to a case */
 void __asan_on_error(void) {
-	char b[9000];
+	static char b[9000];
+	if (vf_cur && !vf_trackbuf[0]) vf_case_text(vf_trackbuf, sizeof vf_trackbuf, vf_cur);
 	int n = snprintf(b, sizeof b, "\n@CRASH sig=asan case=%s\n", vf_trackbuf);
 	if (write(1, b, (size_t)n) < 0) {}
 }
@@ -265,6 +278,7 @@ static int vf_main(int argc, char **argv) {
 	signal(SIGSEGV, vf_sig); signal(SIGBUS, vf_sig); signal(SIGFPE, vf_sig); signal(SIGABRT, vf_sig);
 	signal(SIGILL, vf_sig); signal(SIGALRM, vf_sig);
 	harness_setup();
+	if (!vf_track && !replay) alarm(VF_WD_PERIOD);
 	if (replay) {
 		vf_case c; char *opb; vf_case_init(&c);
 		vf_replaying = 1; vf_track = 1;
